@@ -206,9 +206,11 @@ func c10RunOnce(r *run.Runner, base *FuzzCase, c c10Case, judge bool) (nops int,
 			}
 			// did a fault strike this exchange before the foreground result?
 			fname := ""
+			anyDecodable := false
 			for _, op := range ex.StoreOps {
 				if op.Fault != "" && op.Fg {
 					fname = op.Fault
+					anyDecodable = anyDecodable || c10Decodable[op.Fault]
 				}
 			}
 			if fname == "" {
@@ -216,7 +218,10 @@ func c10RunOnce(r *run.Runner, base *FuzzCase, c c10Case, judge bool) (nops int,
 			}
 			struck[ex.ID] = fname
 			r.Count("foreground_faults_judged", 1)
-			if c10Decodable[fname] {
+			if c10Decodable[fname] || anyDecodable {
+				// (pairs: once a fault whose result still decodes has struck, what
+				// the entry "is" - even its id - is whatever those bytes say; only
+				// the no-panic / no-hang / error clauses are judged)
 				return
 			}
 			if ex.Panic != "" || ex.Header == nil {
@@ -301,14 +306,13 @@ func anotherEntryUsable(ex *sim.Exchange) bool {
 func readBeforeFault(ex *sim.Exchange) bool {
 	found := false
 	for i, op := range ex.StoreOps {
-		if op.Fault == "" || !op.Fg || op.Op != "get" {
+		if op.Fault == "" || !op.Fg || op.Op != "get" || c10Decodable[op.Fault] {
 			continue
 		}
 		ok := false
 		for _, prev := range ex.StoreOps[:i] {
-			if prev.Op == "get" && prev.Fg && prev.Fault == "" && prev.Err == "" && prev.Key == op.Key &&
-				(ex.BodySerial() != "" && bytes.Contains(prev.Value, []byte("TOK:"+ex.BodySerial()+":")) ||
-					ex.BodySerial() == "" && ex.XMsg() != "" && bytes.Contains(prev.Value, []byte("X-Msg: "))) {
+			// (an earlier read hit by a fault whose result still decodes counts as a read)
+			if prev.Op == "get" && prev.Fg && (prev.Fault == "" || c10Decodable[prev.Fault]) && prev.Err == "" && prev.Key == op.Key && len(prev.Value) > 0 {
 				ok = true
 			}
 		}
